@@ -132,11 +132,20 @@ def runAlign : P Verdict := do
   -- the harness sends -1 for "no time field"; a given time is ≥ 0 (the property's quantifier)
   let fixedExtend := true
   let mout := ofModel (createWithAlignment fixedExtend ps nstate mt)
+  -- the statement's conversion: a time stamp in 100 ns units is `t × sampling_rate / (frame_period × 10^7)` frames
+  let unitOracle : Option String :=
+    if unit == "frames" then none else
+      firstSome ((raw.zip ift).map fun ((rs, re), (is, ie)) =>
+        let ws := rs * sr.toFloat / (fp.toFloat * 1e7)
+        let we := re * sr.toFloat / (fp.toFloat * 1e7)
+        -- a given stamp must come out converted (gap filling only touches missing ones)
+        firstSome [check (rs < 0.0 || closeF 1e-12 1e-12 is ws) s!"start {rs} (100 ns) became {is} frames, expected {ws} at {sr} Hz / frame period {fp}",
+                   check (re < 0.0 || closeF 1e-12 1e-12 ie we) s!"end {re} (100 ns) became {ie} frames, expected {we} at {sr} Hz / frame period {fp}"])
   let corr := firstSome [
     check (sameTimes mt ift) s!"Labels::times model={mt} impl={ift}",
     check (sameOut mout iout) s!"create_with_alignment model={showOut mout} impl={showOut iout}" ]
   let orc := match iout with
-    | .ok d => alignOracle nstate ift d
+    | .ok d => unitOracle <|> alignOracle nstate ift d
     | .panic s => some s!"panicked at {s}"
   let known := ift.filter (fun t => t.2 ≥ 0.0) |>.length
   let unknown := n - known
